@@ -353,5 +353,7 @@ def run(tier, replay=None):
              "(values, dtypes, labels, index, names) is compared before/after and the result's container kind is "
              "checked; non-trivial = a parsing option is on",
         level_note=["numpy-level view aliasing below the pandas API is not modelled; its effects would show in the snapshot",
-                    "method calls on a pandas object without inplace=True are trusted not to mutate their receiver"],
+                    "method calls on a pandas object without inplace=True are trusted not to mutate their receiver",
+                    "kind programs (extract/kind_programs.py, Kind.lean): .lazy() yields a LazyFrame, LazyFrame.collect() a "
+                    "DataFrame, the polars backend returns the kind it was given — modelled, checked by the differential"],
     )
